@@ -442,7 +442,9 @@ class Executor:
                     self.assign_local_or_place(path, dst, res)
                 bb = ret
                 continue
-            m = re.match(r"^(.*\)) -> (?:unwind .*|\[unwind.*\]);$", t)
+            m = re.match(r"^(.*\)) -> (?:unwind .*|\[unwind.*\]|bb\d+);$", t) if re.match(
+                r"^_\d+ = (core::panicking::)?(panic|panic_fmt|unreachable_display|panic_bounds_check)", t) or \
+                not re.match(r"^(.*\)) -> bb\d+;$", t) else None
             if m:
                 # diverging call (panic, todo!, unreachable!)
                 path.events.append(("call", split_call(m.group(1))[1].strip(), (), None))
